@@ -579,6 +579,27 @@ func policyMalformed(p *ccpb.Policy) bool {
 func convCase(r *hx.Run, p *ccpb.Policy, quotes []*pb.QuoteV4, tags ...string) {
 	var o *validate.Options
 	var err error
+	// the policy message is the caller's: its list fields get spare capacity holding sentinel entries (as a slice of a longer
+	// shared list has), and the whole message is compared, to capacity, after the conversion
+	var before *ccpb.Policy
+	var spareR, spareA [][]byte
+	if p != nil {
+		if t := p.TdQuoteBodyPolicy; t != nil {
+			mk := func(l [][]byte) ([][]byte, [][]byte) {
+				if l == nil {
+					return nil, nil
+				}
+				full := make([][]byte, len(l), len(l)+2)
+				copy(full, l)
+				spare := full[len(l) : len(l)+2]
+				spare[0], spare[1] = []byte("sentinel-0"), []byte("sentinel-1")
+				return full, spare
+			}
+			t.Rtmrs, spareR = mk(t.Rtmrs)
+			t.AnyMrTd, spareA = mk(t.AnyMrTd)
+		}
+		before = proto.Clone(p).(*ccpb.Policy)
+	}
 	res, stack := hx.Guard(func() string {
 		o, err = validate.PolicyToOptions(p)
 		if err != nil {
@@ -587,7 +608,15 @@ func convCase(r *hx.Run, p *ccpb.Policy, quotes []*pb.QuoteV4, tags ...string) {
 		return "ok " + dumpOptions(o)
 	})
 	fail := ""
-	if res == "panic" {
+	if res != "panic" && p != nil {
+		if !proto.Equal(p, before) {
+			fail = "PolicyToOptions changed the policy message it was given"
+		} else if (spareR != nil && (string(spareR[0]) != "sentinel-0" || string(spareR[1]) != "sentinel-1")) || (spareA != nil && (string(spareA[0]) != "sentinel-0" || string(spareA[1]) != "sentinel-1")) {
+			fail = "PolicyToOptions wrote behind a list field of the policy message (into the spare capacity of the caller's slice: the next entries of a longer shared list)"
+		}
+	}
+	if fail != "" {
+	} else if res == "panic" {
 		fail = "crash in PolicyToOptions: " + strings.SplitN(stack, "\n", 2)[0]
 	} else if err == nil && policyMalformed(p) {
 		fail = "malformed policy converted successfully"
@@ -664,6 +693,38 @@ func c14(r *hx.Run) {
 				MrOwnerConfig: append([]byte{}, t0.MrOwnerConfig...), Rtmrs: [][]byte{t0.Rtmrs[0], t0.Rtmrs[1], t0.Rtmrs[2], t0.Rtmrs[3]}, ReportData: append([]byte{}, t0.ReportData...),
 				AnyMrTd: [][]byte{hx.RandBytes(rng, 48), append([]byte{}, t0.MrTd...)}},
 		}
+	}
+	// the options a conversion returns are the caller's to change: what one caller does to its options (a per-request nonce,
+	// a stricter floor) must not show up in what a later conversion returns (harness-only)
+	fullOnce := full()
+	for i, mk := range []func() *ccpb.Policy{
+		func() *ccpb.Policy { return nil },
+		func() *ccpb.Policy { return &ccpb.Policy{} },
+		func() *ccpb.Policy { return &ccpb.Policy{HeaderPolicy: &ccpb.HeaderPolicy{}, TdQuoteBodyPolicy: &ccpb.TDQuoteBodyPolicy{}} },
+		func() *ccpb.Policy { return proto.Clone(fullOnce).(*ccpb.Policy) },
+	} {
+		obs, fail := "independent", ""
+		hx.Guard(func() string {
+			o1, err1 := validate.PolicyToOptions(mk())
+			if err1 != nil || o1 == nil {
+				obs, fail = "err", fmt.Sprintf("conversion failed: %v", err1)
+				return ""
+			}
+			want := dumpOptions(o1)
+			o1.TdQuoteBodyOptions.ReportData = bytes.Repeat([]byte{0x5a}, 64)
+			o1.HeaderOptions.MinimumQeSvn = 65535
+			o1.TdQuoteBodyOptions.MrTd = bytes.Repeat([]byte{0x11}, 48)
+			o2, err2 := validate.PolicyToOptions(mk())
+			if err2 != nil || o2 == nil {
+				obs, fail = "err", fmt.Sprintf("second conversion failed: %v", err2)
+			} else if o2 == o1 {
+				obs, fail = "shared", "two conversions returned the same *Options"
+			} else if got := dumpOptions(o2); got != want {
+				obs, fail = "leaked", "a later conversion of the same policy returns options another caller had changed on ITS result: "+got
+			}
+			return ""
+		})
+		r.Emit(fmt.Sprintf("# C14.independent policy=%d", i), obs, fail, fmt.Sprintf("independent|%d", i), true, "independent")
 	}
 	convCase(r, nil, quotes, "nil-policy")
 	convCase(r, &ccpb.Policy{}, quotes, "empty-policy")
